@@ -214,13 +214,13 @@ func ExploreFn(cfg *Config, run func(in *Interp) Value) []*Outcome {
 		cfg.MaxDepth = 40
 	}
 	if cfg.MaxPaths == 0 {
-		cfg.MaxPaths = 20000
+		cfg.MaxPaths = 6000
 	}
 	if cfg.MaxChoices == 0 {
 		cfg.MaxChoices = 400
 	}
 	if cfg.TotalFuel == 0 {
-		cfg.TotalFuel = 60000000
+		cfg.TotalFuel = 20000000
 	}
 	o := &oracle{}
 	var outs []*Outcome
